@@ -45,14 +45,17 @@ def requests_for(family):
     d = _requests_for(family)
     # transport-level variants of the valid request (every family): a declared length above the limit, a length that is
     # not a number -- (method, path, query, body, content type, extra environ)
-    if family != 'http':          # HttpRpc never reads the body of a GET request: its Content-Length is not consulted
+    if family not in ('http', 'httpout'):          # HttpRpc never reads the body of a GET request: its Content-Length is not consulted
         d['declared_too_long'] = d['valid'] + ({'CONTENT_LENGTH': str(10 ** 9)},)
         d['content_length_not_a_number'] = d['valid'] + ({'CONTENT_LENGTH': 'twelve'},)
+        # bytes that are not text in the announced (or default) encoding, in the middle of an otherwise valid document
+        v = d['valid']
+        d['not_utf8'] = v[:3] + (v[3][:len(v[3]) // 2] + b'\xff\xfe\xe9' + v[3][len(v[3]) // 2:],) + v[4:]
     return d
 
 
 def _requests_for(family):
-    if family == 'http':
+    if family in ('http', 'httpout'):
         return {
             'valid': ('GET', '/m', 'i=5', b'', 'text/plain'),
             'unknown_method': ('GET', '/nope', 'i=5', b'', 'text/plain'),
@@ -135,6 +138,8 @@ def protocols(family, validator='soft', **kw):
         return P(validator=validator, **kw), P(**kw)
     if family == 'http':
         return HttpRpc(validator=validator), JsonDocument()
+    if family == 'httpout':            # HttpRpc as the output protocol too: results and faults as plain text / bytes
+        return HttpRpc(validator=validator), HttpRpc()
     if family == 'json':
         return JsonDocument(validator=validator), JsonDocument()
     if family == 'soap11':
@@ -161,7 +166,7 @@ USER_OUTCOMES = ['return', 'client_fault', 'server_fault', 'non_fault', 'non_fau
 
 class Harness(object):
     def __init__(self, c, family, validator='soft', failing=None, chunked=True, user_outcomes=USER_OUTCOMES,
-                 content_length='exact', prot_kwargs=None):
+                 content_length='exact', prot_kwargs=None, evmgr_kw='_event_managers'):
         self.c = c
         self.family = family
         self.failing = failing      # None or (manager label, event name, 'fault'|'other')
@@ -175,8 +180,12 @@ class Harness(object):
         self.mgr_method = EventManager(None)
         self.mgr_method2 = EventManager(None)      # a second manager on the same method: sees what the first sees
 
+        # the four spellings @rpc accepts for method-level event managers (the singular ones take one manager)
+        self.method_managers = 2 if evmgr_kw.endswith('s') else 1
+        evkw = {evmgr_kw: [self.mgr_method, self.mgr_method2] if self.method_managers == 2 else self.mgr_method}
+
         class Svc(ServiceBase):
-            @rpc(Integer, _returns=Integer, _event_managers=[self.mgr_method, self.mgr_method2])
+            @rpc(Integer, _returns=Integer, **evkw)
             def m(ctx, i):
                 return h.user(ctx, i)
 
@@ -195,7 +204,7 @@ class Harness(object):
         self.managers = [('app', self.app.event_manager, METHOD_EVENTS),
                          ('service', Svc.event_manager, METHOD_EVENTS),
                          ('method', self.mgr_method, METHOD_EVENTS),
-                         ('method2', self.mgr_method2, METHOD_EVENTS),
+                         ] + ([('method2', self.mgr_method2, METHOD_EVENTS)] if self.method_managers == 2 else []) + [
                          ('transport', self.wsgi.event_manager, WSGI_EVENTS),
                          ('inprot', inp.event_manager, PROT_EVENTS),
                          ('outprot', outp.event_manager, PROT_EVENTS)]
@@ -224,11 +233,15 @@ class Harness(object):
         c.emit('user_fn', i)
         k = c.choose(self.user_outcomes, 'user_outcome')
         self.user_outcome = k
+        if getattr(self, 'switch_out', None):
+            # the method picks the output protocol of this request (MethodContext.out_protocol is settable)
+            ctx.out_protocol = protocols(self.switch_out, None)[1]
         if k == 'return':
             return 7
         if k == 'client_fault':
             code, message = getattr(self, 'fault_spec', None) or ('Client.Custom.Sub', u'client fault \u00e9')
-            self.the_fault = Fault(code, message, detail={'k': {'n': 'v', 'zero': 0, 'no': False}, 'one': 1})
+            cls = getattr(self, 'fault_class', None) or Fault
+            self.the_fault = cls(code, message, detail={'k': {'n': 'v', 'zero': 0, 'no': False}, 'one': 1})
             raise self.the_fault
         if k == 'server_fault':
             self.the_fault = Fault('Server.Custom', 'server fault')
@@ -310,6 +323,19 @@ class Harness(object):
         if not o.returned:
             return o
         return Outcome('return', value=b''.join(x for x in chunks if isinstance(x, bytes)))
+
+    def run_nullserver(self, kind, ostr=False, keyword=False):
+        """The call through the in-process NullServer transport (kind: 'valid' | 'unknown_method').  Returns the Outcome
+        of the direct call."""
+        from spyne.server.null import NullServer
+        c = self.c
+        server = NullServer(self.app, ostr=ostr)
+        self.server = server
+        name = 'm' if kind == 'valid' else 'nope'
+        fc = getattr(server.service, name)
+        out = c.run(fc, i=5) if keyword else c.run(fc, 5)
+        c.emit('callable_returned', out.kind)
+        return out
 
     def run_wsgi(self, kind, abort_after=None):
         """One request; returns the Outcome of the WSGI callable.  Trace: start_response, chunk, ..."""
